@@ -37,13 +37,13 @@ def addition_type_works(ty, resolve, depth=0):
     t = resolve(ty)
     k = t.kind
     if k in SCALARS:
-        return ty.kind != 'ref' or k != 'enum' or True
+        return not (ty.kind == 'ref' and k == 'enum')      # a referenced ENUMERATED is a struct: "(int32_t)src_p->x" does not compile
     if k == 'octets':
         return True
     if k == 'seqof':
-        return ty.kind != 'ref' and t.lo != t.hi and resolve(t.elem).kind in SCALARS and t.elem.kind != 'ref'
+        return ty.kind != 'ref' and t.lo != t.hi and t.elem.kind in ('bool', 'int', 'real', 'null')
     if k == 'choice':
-        return ty.kind != 'ref' and all(a.kind != 'ref' and resolve(a).kind in SCALARS for _, a in t.alts) and \
+        return ty.kind != 'ref' and all(a.kind in ('bool', 'int', 'real', 'null') for _, a in t.alts) and \
             all(canon(n) == n for n, _ in t.alts)
     return False
 
@@ -56,7 +56,17 @@ def addition_static_length(m, where, resolve):
 
 import c09_regions
 
+def addition_loop_variable(t, where, resolve):
+    """A type assignment with both a SEQUENCE OF and a SEQUENCE with known additions: the decoder's
+    bit-counting loop uses the literal variable i, i.e. the SEQUENCE OF's loop variable."""
+    if where != 'type':
+        return False
+    subs = list(T.subtypes(t))
+    return any(x.kind == 'seqof' for x in subs) and any(x.kind == 'seq' and getattr(x, 'additions', None) for x in subs)
+
+
 REGIONS = {
+    'oer-addition-loop-variable': addition_loop_variable,
     'oer-octets-fixed-default': c09_regions.octets_fixed_default,
     'oer-octets-default-name-clash': c09_regions.octets_default_name_clash,
     'oer-bits-wider-than-32': bits_wider_than_32,
